@@ -363,7 +363,8 @@ class BinningBase:
         bin_map: Iterator(tuple)
             The bins must be in ascending order
         """
-        length = max(item[1] for item in bin_map) + 1
+        bin_map = list(bin_map)
+        length = max((item[1] for item in bin_map), default=-1) + 1  # (No bins: nothing to map)
         bins = np.empty((length, 2), dtype=float)
         bins[:] = np.nan
         for old, new in bin_map:
